@@ -178,16 +178,17 @@ func vCfgEntry(r *rand.Rand, id, ts, rev int64) *vEntry {
 }
 
 type vGen struct {
-	script   []*vEntry // scripted warm-up: registered users (and a services link) before the random phase
-	r        *rand.Rand
-	id       int64
-	ts       int64
-	cmid     int64
-	rev      int64
-	length   int
-	realtime bool // ts is set from the wall clock before every entry (HTTP-level stage)
-	minlen   int  // a scripted warm-up that is longer than the history length extends the history
-	wild     int  // percentage of client lines drawn from the grammar/mutation fuzzer instead of the alphabet
+	script     []*vEntry // scripted warm-up: registered users (and a services link) before the random phase
+	r          *rand.Rand
+	id         int64
+	ts         int64
+	cmid       int64
+	rev        int64
+	length     int
+	anySvsnick bool // SVSNICK with any target onto any nickname (outside C14's scope; determinism-only histories)
+	realtime   bool // ts is set from the wall clock before every entry (HTTP-level stage)
+	minlen     int  // a scripted warm-up that is longer than the history length extends the history
+	wild       int  // percentage of client lines drawn from the grammar/mutation fuzzer instead of the alphabet
 }
 
 func (g *vGen) tick() {
@@ -437,7 +438,16 @@ func (g *vGen) next(step int, st map[string]interface{}) *vEntry {
 			if len(cs) > 0 && r.Intn(8) != 0 {
 				target = variant(r, cs[r.Intn(len(cs))])
 			}
-			if free {
+			if g.anySvsnick && len(nicks) > 0 {
+				// determinism-only histories (C01 holds for ALL histories): services also rename their own
+				// pseudo-clients, and onto nicknames that are taken
+				target = variant(r, nicks[r.Intn(len(nicks))])
+				if r.Intn(2) == 0 {
+					nn = nicks[r.Intn(len(nicks))]
+				}
+				e.Sup = false
+				e.Data = fmt.Sprintf(":%s SVSNICK %s %s %d", pfx, target, nn, g.ts)
+			} else if free {
 				e.Data = fmt.Sprintf(":%s SVSNICK %s %s %d", pfx, target, nn, g.ts)
 			} else {
 				e.Data = fmt.Sprintf(":%s SVSNICK %s %s %d", pfx, target, "1bad", g.ts)
@@ -850,7 +860,11 @@ func vVerifyMirror(tok string, ts int64) bool {
 }
 
 func vGenHistory(rng *rand.Rand, length int, wild int) func(step int, st map[string]interface{}) *vEntry {
-	g := &vGen{r: rng, ts: vTsBase + int64(rng.Intn(100)), length: length, wild: wild}
+	return vGenHistoryOpt(rng, length, wild, false)
+}
+
+func vGenHistoryOpt(rng *rand.Rand, length int, wild int, anySvsnick bool) func(step int, st map[string]interface{}) *vEntry {
+	g := &vGen{r: rng, ts: vTsBase + int64(rng.Intn(100)), length: length, wild: wild, anySvsnick: anySvsnick}
 	return func(step int, st map[string]interface{}) *vEntry {
 		if step > length && step > g.minlen {
 			return nil
